@@ -77,6 +77,10 @@ type Model struct {
 	dbs [16]map[string]*mObj
 	ver map[wkey]uint64 // modification counter per (db,key); survives deletion
 	now int64           // unix ns of the command being applied
+	// abaTolerant models the open known finding KF-watch-aba-missing-key: a
+	// WATCH on a missing key does not notice the key having been created and
+	// removed again. Only used to attribute an illegal history to that finding.
+	abaTolerant bool
 }
 
 func NewModel() *Model {
@@ -88,7 +92,7 @@ func NewModel() *Model {
 }
 
 func (m *Model) Clone() *Model {
-	c := &Model{ver: make(map[wkey]uint64, len(m.ver)), now: m.now}
+	c := &Model{ver: make(map[wkey]uint64, len(m.ver)), now: m.now, abaTolerant: m.abaTolerant}
 	for k, v := range m.ver {
 		c.ver[k] = v
 	}
